@@ -8,6 +8,7 @@ from .. import netcase as N
 
 PROPERTY = "C08"
 LEVEL = "exploration"
+TECHNIQUE = 'property-based testing (Hypothesis): names spelled from generated compositions over five symbol-list configurations + exhaustive symbol-pair corpus + injected foreign characters; atheris supplement with a reference tokenizer in the thorough tier'
 RULE = (
     "Names are spelled from generated compositions ([prefix][label](Symbol[count])+[charges]) over three "
     "configurations: the default symbol lists; the upper-case UCLCHEM-style list with the replacement table; the "
@@ -58,6 +59,14 @@ CFG = {
         labels=[],
         install=True,
     ),
+    "isotopes": dict(
+        elements=["e", "H", "D", "T", "He", "He3", "C", "O", "N"],
+        pseudo=["CR", "CRP", "Photon", "o", "p"],
+        replacement={},
+        kwargs={},
+        labels=["o", "p"],
+        install=True,
+    ),
     "upper-norepl": dict(
         elements=["E", "H", "D", "HE", "C", "N", "O", "MG", "SI", "S", "CL"],
         pseudo=["CR", "CRP", "PHOTON", "CRPHOT"],
@@ -67,7 +76,7 @@ CFG = {
         install=True,
     ),
 }
-PINNED = {"H": 1.0, "D": 2.0, "He": 4.0, "C": 12.0, "N": 14.0, "O": 16.0}
+PINNED = {"H": 1.0, "D": 2.0, "He": 4.0, "C": 12.0, "N": 14.0, "O": 16.0, "T": 3.0, "He3": 3.0}  # H..O pinned by the repo's tests; T, He3 = protons + neutrons of the isotope table
 FOREIGN = ["?", "_", " ", "!", "q", "z", "x", "%", "\t", "j"]
 
 
@@ -79,7 +88,7 @@ def budget(tier):
 
 @st.composite
 def _case(draw):
-    cfg = draw(st.sampled_from(["default", "default", "upper", "leeds", "upper-norepl", "upper-G"]))
+    cfg = draw(st.sampled_from(["default", "default", "upper", "leeds", "upper-norepl", "upper-G", "isotopes"]))
     c = CFG[cfg]
     kind = draw(st.sampled_from(["mol"] * 8 + ["grain", "electron"]))
     case = {"cfg": cfg, "kind": kind, "tokens": [], "label": "", "surface": False, "group": 0, "charge": 0, "inject": None, "explicit1": []}
